@@ -10,24 +10,33 @@ C = dict(
     plan_sources=[
         dict(name="enum", module="WriterReq", cfg="WriterReq_PlanQ.cfg", tiers=["quick"], workers=4),
         dict(name="enumT", module="WriterReq", cfg="WriterReq_PlanT.cfg", tiers=["thorough"], workers=8),
+        # the same classes with a name mapping in force that covers / does not cover the message's object
+        dict(name="map", module="WriterReq", cfg="WriterReq_PlanMapQ.cfg", tiers=["quick"], workers=4),
+        dict(name="mapT", module="WriterReq", cfg="WriterReq_PlanMapT.cfg", tiers=["thorough"], workers=8),
     ],
     directed="plans/C20.jsonl",
     trace=("WriterReq_Trace", "WriterReq_Trace.cfg"),
     death="violation",
     nontrivial=lambda t: any(KINDS_WITH_REQUEST(e) for e in t["events"]),
     rule="plans = every message class of WriterReq.tla (22 op/event kinds x live/dropped parent x every live/dropped member "
-         "list up to length 3 x failing downstream x create-collection schema class x replicate id, plus 4 malformed pack "
-         "shapes), each replayed with 3 (quick) / 150 (thorough) rapid-drawn contents; a trace is non-trivial if at least one "
-         "downstream request was observed; distinct = distinct event sequences",
+         "list up to length 3 x failing downstream x create-collection schema class x replicate id x grant/revoke (add/remove) "
+         "of the operate requests, plus 4 malformed pack shapes), each replayed with 3 (quick) / 150 (thorough) rapid-drawn "
+         "contents; and the same classes (lists up to length 2) under a task name mapping that covers / does not cover the "
+         "message's object, 3 / 60 contents each (covering shape collection-level / whole-database / both = sample index mod 3); "
+         "a trace is non-trivial if at least one downstream request was observed; distinct = distinct event sequences",
     assumptions=[
         "observation point is the api.DataHandler interface (recording fake, deep copies); the real MilvusDataHandler / gRPC "
         "encoding behind it is not exercised",
         "field CONTENTS (names, index params, passwords, schemas, properties, ids, timestamps) are sampled with rapid inside the "
         "class TLC enumerates and deep-compared in the driver (one equality bit per field group in the trace); structure "
         "(kind, request count, list membership, stamp source, error) is enumerated",
-        "each step runs on a fresh writer with downstream=milvus, no name mapping (C09) and readiness tables seeded through "
-        "NewChannelWriter's droppedObjs; when an op is skipped is C08's business - here a skip is accepted only if the parent "
-        "object or every list member is in the dropped table",
+        "each step runs on a fresh writer with downstream=milvus and readiness tables seeded through "
+        "NewChannelWriter's droppedObjs (keyed by source names); when an op is skipped is C08's business - here a skip is "
+        "accepted only if the parent object or every list member is in the dropped table",
+        "name mapping: installed through UpdateNameMappings before the step; WHICH target name a request must carry is C09's "
+        "business - here the database / collection groups accept the image of the source name under any matching entry (the "
+        "source name when none matches) and the object of a privilege may be named by the source or by its image; every other "
+        "identity group, the request kind and the operation type (grant / revoke) are judged the same under every mapping",
         "API events are built exactly as replicate_channel_manager.go builds them (MsgTimestamp = CreateTime / "
         "PartitionCreatedTimestamp / barrier ts, IsReplicate set); the reader itself is not driven",
         "stamp accepted if it equals the pack's end-position timestamp or the message's own timestamp",
@@ -37,4 +46,11 @@ C = dict(
 
 
 def run(tier, replay=None):
+    if not replay:
+        from lib import vlib
+        # negative control: a pass-through request rebuilt (and stripped of its operation type) when the mapping covers its object
+        r = vlib.run_tlc("WriterReq", "WriterReq_MapLossy.cfg", workers=4, timeout=300)
+        if "ContractHolds" not in r.violated:
+            raise vlib.Inconclusive("WriterReq_MapLossy.cfg no longer violates ContractHolds: the name-mapping classes are vacuous")
+        vlib.log("[tlc] WriterReq/WriterReq_MapLossy.cfg: violates ContractHolds as expected")
     return flow.standard_flow(C, tier, replay)
